@@ -13,7 +13,7 @@ import json, os, subprocess, sys, time
 VERIF = os.path.dirname(os.path.dirname(os.path.abspath(__file__)))
 WT = '/tmp/vf_seedwt'
 # tests that only sleep / take minutes and exercise nothing a seeded change touches unless named in meta.tests_run
-SLOW = []
+SLOW = ['testserial']   # needs a serial device; fails (timeout after 900 s) on the pinned tree as well
 
 def sh(cmd, **kw):
     return subprocess.run(cmd, shell=True, stdout=subprocess.PIPE, stderr=subprocess.STDOUT, universal_newlines=True, errors='replace', **kw)
@@ -54,7 +54,7 @@ def tests(seed):
     head = worktree()
     t0 = time.time()
     if not os.path.exists(WT+'/_build/build.ninja'):
-        r = sh('cmake -G Ninja -DCMAKE_BUILD_TYPE=RelWithDebInfo -S %s -B %s/_build' % (WT, WT))
+        r = sh('cmake -G Ninja -DCMAKE_BUILD_TYPE=RelWithDebInfo -DWITH_TESTS=ON -DWITH_EXAMPLES=OFF -DWITH_QT=OFF -DCMAKE_CXX_FLAGS=-Wno-error -S %s -B %s/_build' % (WT, WT))
         if r.returncode: sys.exit(r.stdout[-3000:])
     ap = sh('git -C %s apply %s/patch.diff' % (WT, sd))
     if ap.returncode: print(seed, 'PATCH DOES NOT APPLY', ap.stdout); return False
@@ -71,7 +71,7 @@ def tests(seed):
         failed = [l.split(' - ')[1].split(' ')[0] for l in lines if ' - ' in l and ('(Failed)' in l or '(Timeout)' in l or 'Exception' in l or '(Not Run)' in l)]
         summ = [l for l in lines if 'tests passed' in l or 'tests failed' in l]
         res.update({'ran': 'cmake --build + ' + cmd.replace(WT, '<scratch worktree>'), 'summary': summ[-1] if summ else '', 'failed': sorted(set(failed)), 'excluded_slow': excl})
-        res['confirmed'] = (sorted(set(failed)) in ([], ['testserial']))
+        res['confirmed'] = bool(summ) and (sorted(set(failed)) in ([], ['testserial']))
     else:
         res['build_tail'] = b.stdout[-2000:]; res['confirmed'] = False
     sh('git -C %s checkout -q -- .' % WT)
